@@ -347,7 +347,9 @@ func cleanName(n string) bool {
 	return true
 }
 
-func inside(p, base string) bool { return p == base || strings.HasPrefix(p, base+string(filepath.Separator)) }
+func inside(p, base string) bool {
+	return p == base || strings.HasPrefix(p, base+string(filepath.Separator))
+}
 
 // materialise builds the world of one case under caseRoot and returns the SysFS root.
 func (w *world) materialise(caseRoot string, in Input) (string, error) {
@@ -452,16 +454,42 @@ func (w *world) runLoad(c *common.Ctx, n int, in Input) (Obs, error) {
 		return Obs{}, err
 	}
 	ts := truststore.NewX509TrustStore(dir.NewSysFS(root))
-	certs, err := ts.GetCertificates(context.Background(), truststore.Type(in.StoreType), in.Name)
-	o := Obs{Ok: err == nil, Certs: []int{}}
-	for _, cert := range certs {
-		id := unknownCert
-		if cert != nil {
-			if k, ok := w.byRaw[string(cert.Raw)]; ok {
-				id = k
+	// One trust store value lives as long as a verifier: loads of OTHER stores through the same
+	// value must not influence the load under test. For plain type/name pairs, same-named sibling
+	// stores under the other two types (each holding one valid root) are loaded first.
+	if cleanType(in.StoreType) && cleanName(in.Name) {
+		if good, _ := w.split("tsa"); len(good) > 0 {
+			for _, t := range validTypes {
+				if t == in.StoreType {
+					continue
+				}
+				sib := root + "/truststore/x509/" + t + "/" + in.Name
+				if os.MkdirAll(sib, 0o755) == nil {
+					os.WriteFile(sib+"/sibling-root.pem", w.pemOf(good[:1]), 0o644)
+					ts.GetCertificates(context.Background(), truststore.Type(t), in.Name)
+				}
 			}
 		}
-		o.Certs = append(o.Certs, id)
+	}
+	ids := func(certs []*x509.Certificate) []int {
+		out := []int{}
+		for _, cert := range certs {
+			id := unknownCert
+			if cert != nil {
+				if k, ok := w.byRaw[string(cert.Raw)]; ok {
+					id = k
+				}
+			}
+			out = append(out, id)
+		}
+		return out
+	}
+	certs, err := ts.GetCertificates(context.Background(), truststore.Type(in.StoreType), in.Name)
+	o := Obs{Ok: err == nil, Certs: ids(certs)}
+	// a second load of the same store through the same value must give the same answer
+	certs2, err2 := ts.GetCertificates(context.Background(), truststore.Type(in.StoreType), in.Name)
+	if (err2 == nil) != o.Ok || fmt.Sprint(ids(certs2)) != fmt.Sprint(o.Certs) {
+		o.Certs = append(o.Certs, unknownCert) // not repeatable: reported as a foreign certificate
 	}
 	return o, nil
 }
